@@ -42,3 +42,19 @@ Theorem C18_on_idle_fires_once : forall cfg l tsi x y op idle,
   idle <= tsi -> idle_fire cfg l tsi [(x, y, op, idle)] = (l' <- fakekey_action cfg l op (x, y) ;; Ok (l', [])).
 Proof. exact idle_fires_once. Qed.
 Print Assumptions C18_on_idle_fires_once.
+
+(* the idle time on-idle entries wait for is kept by can_block_update_idle_waiting(ms), called once per loop iteration with the
+   length of the iteration: an iteration in which kanata is not idle restarts it, an idle one adds its length (saturating) whatever
+   that length is, and keeps the loop awake while an entry waits; together with the two theorems above: an entry fires in the first
+   iteration in which the accumulated idle time reaches its duration, and not before *)
+Theorem C18_idle_time_restarts : forall cfg k ms,
+  k_is_idle_cfg cfg k = false -> fst (k_can_block cfg k ms) = set_k_ticks_since_idle 0 k.
+Proof. exact idle_time_restarts. Qed.
+Print Assumptions C18_idle_time_restarts.
+
+Theorem C18_idle_time_accumulates : forall cfg k ms,
+  k_is_idle_cfg cfg k = true -> counting k = true ->
+  fst (k_can_block cfg k ms) = set_k_ticks_since_idle (sat_add16 (k_ticks_since_idle k) ms) k /\
+  snd (k_can_block cfg k ms) = false.
+Proof. exact idle_time_accumulates. Qed.
+Print Assumptions C18_idle_time_accumulates.
